@@ -38,6 +38,53 @@ def _cached(fn) -> bool:
     return any("cache" in d for d in decorator_names(fn))
 
 
+def _ml_mutation(ctx, repo) -> None:
+    """MLTestFactory._mutated_ml_expr interpreted for tuple- and list-structured ndarray payloads and the
+    scalar kinds (the numeric mutation itself stubbed): the mutated literal evaluates to a value of the
+    structure the statement is bound to."""
+    import types as _types
+
+    TF = "pynguin.testcase.testfactory"
+    fn = repo.try_func(TF, "MLTestFactory._mutated_ml_expr")
+    if fn is None or not repo.has_module(ML):
+        raise AnalysisError("anchor vanished: MLTestFactory._mutated_ml_expr / ndarray_cst")
+    ctx.analysed(fn)
+    mlmod = repo.module(ML)
+    render = repo.func(ML, "ml_value_to_cst")
+    cases = [
+        ("tuple payload, ndim 1", dict(kind="ndarray", is_tuple=True), (1, 2, 3), [1, 1, 7], tuple),
+        ("list payload, ndim 1", dict(kind="ndarray", is_tuple=False), [1, 2, 3], [4, 2, 3], list),
+        ("nested list payload", dict(kind="ndarray", is_tuple=False), [[1.5, 2.0], [0.0, -1.0]], [[1.5, 2.0], [0.0, 3.5]], list),
+        ("scalar", dict(kind="ml_scalar"), 3, 5, int),
+        ("allowed value", dict(kind="allowed_values", allowed_values=["same", "valid"]), "same", "valid", str),
+    ]
+    for label, kw, old, mutated, want_type in cases:
+        info = _types.SimpleNamespace(**{"kind": None, "dtype": "int32", "low": 0, "high": 9, "is_tuple": False, "allowed_values": None, **kw})
+        it = peval.Interp(resolver=peval.repo_resolver(repo), ctor_prefixes=("cst.",), max_steps=400000, native_types=(_types.SimpleNamespace,),
+                          externs={"ndarray_cst.ml_cst_to_value": lambda _e, _o=old: _o, "ndarray_mutation.mutate_ndarray": lambda *_a, _m=mutated: (list(_m), True), "ndarray_mutation.replacement_value": lambda *_a, _m=mutated: _m,
+                                   "randomness.choice": lambda seq: list(seq)[-1],
+                                   "ndarray_cst.ml_value_to_cst": lambda v: peval.Interp(resolver=peval.repo_resolver(repo), ctor_prefixes=("cst.",), max_steps=400000).run_function(render, [v], {}, mlmod)})
+        tag = f"[ml {label}]"
+        try:
+            term = it.run_function(fn, [info, peval.Term("cst.Name", ["old"], {})], {}, repo.module(TF))
+            if term is None:
+                ctx.fail("C23.ml-mutate", fn, f"{tag}: no mutated expression although the mutation reported a change", stmt=tag)
+                continue
+            text = cstterm.render(term)
+            back = cstterm.safe_eval(text, {})
+        except peval.Undecided as exc:
+            ctx.undecide("C23.ml-mutate", fn, f"{tag}: {exc}")
+            continue
+        except (peval.Raises, cstterm.Invalid) as exc:
+            ctx.fail("C23.ml-mutate", fn, f"{tag}: {type(exc).__name__} {exc}", stmt=tag)
+            continue
+        except Exception as exc:  # noqa: BLE001
+            ctx.fail("C23.ml-mutate", fn, f"{tag}: the mutated text does not evaluate: {type(exc).__name__}: {str(exc)[:60]}", stmt=tag)
+            continue
+        want_val = tuple(mutated) if want_type is tuple else mutated
+        ctx.check("C23.ml-mutate", fn, type(back) is want_type and back == want_val, f"{tag}: the mutated literal `{text[:50]}` evaluates to {_short(back)} ({type(back).__name__}); the statement is bound to a {want_type.__name__} and the mutation produced {want_val!r}: the literal no longer evaluates to a value of the requested collection type", what=f"{tag} -> `{text[:40]}`", stmt=tag)
+
+
 def _generation(ctx, repo) -> None:
     """generate_literal interpreted for every requested type under a grid of configurations (sizes 0 / 1 /
     default) and scripted random draws (lowest, highest, seeded): the literal is produced without an
@@ -122,6 +169,8 @@ def _generation(ctx, repo) -> None:
 
 def check(ctx) -> None:
     repo = ctx.repo
+    ctx.rule("C23.ml-mutate", "ABSINT: MLTestFactory._mutated_ml_expr for tuple / list / nested ndarray payloads, scalars and allowed values (numeric mutation stubbed) renders a literal that evaluates to the mutated value in the structure the statement is bound to", floor=5)
+    _ml_mutation(ctx, repo)
     ctx.rule("C23.generate", "ABSINT: generate_literal for every requested type under configurations with sizes 0 / 1 / default and scripted draws (lowest, highest, seeded) yields, without raising, valid tokens that evaluate to a value of the requested type within the configured maximum size", floor=90)
     _generation(ctx, repo)
     ctx.rule("C23.render", "ABSINT: literal_to_cst over the value partition: valid tokens, rendered text evaluates to the same value (type, sign of zero, inf, nan)", floor=40)
